@@ -2,3 +2,4 @@ INIT TraceInit
 NEXT TraceNext
 INVARIANT TraceChecked
 CONSTANT HandsOverSendersMessage = FALSE
+CONSTANT LateSetHeaderJoins = FALSE
